@@ -203,6 +203,12 @@ def parse(
                     structure.LambdaSort(parse(branches[0], structure_cls))
                 )
 
+            elif structure_cls == structure.ListLiteral:
+                # Each item becomes its own Python function: an enclosing
+                # loop cannot be left from inside it.
+                branches = list(map(lambda x: parse(x, structure_cls), branches))
+                structures.append(structure_cls(*branches))
+
             else:
                 branches = list(
                     map(lambda x: parse(x, parent or structure_cls), branches)
